@@ -1,6 +1,7 @@
 package main
 
 import (
+	"github.com/elastic/go-ucfg/flag"
 	"sort"
 	"strconv"
 
@@ -77,6 +78,13 @@ func kParse(c J) interface{} {
 		pj := p.(map[string]interface{})
 		func() {
 			defer func() { _ = recover() }()
+			if f, ok := pj["flag"].(string); ok {
+				// a -D key=value flag handled earlier in the process (flag/value.go parses its value with parse.Value)
+				fv := flag.NewFlagKeyValue(ucfg.New(), boolD(pj, "autoBool", true), buildOpts(pj["opts"])...)
+				_ = fv.Set(f)
+				_ = fv.String()
+				return
+			}
 			if cfg, err := ucfg.NewFrom(buildValue(pj["from"]), buildOpts(pj["opts"])...); err == nil {
 				_, _ = cfg.String(str(pj, "name"), -1, buildOpts(pj["ropts"])...)
 				var m map[string]interface{}
